@@ -133,6 +133,10 @@ func runPlan(t *testing.T, sc *Scenario, plan *Plan, ch *simrt.Choices) (res Res
 	// neither a pass nor a violation.
 	if !res.Budget && (len(run.Panics) == 0 || sc.JudgesPanics) {
 		sc.Check(w, run)
+	} else if !res.Budget {
+		// the process would have crashed: the scenario's own oracles are not evaluated (their
+		// findings would be consequences of the crash), the crash itself is the violation
+		reportPanics(w, run, sc.Property+".crash", "library-panic:")
 	}
 	if os.Getenv("VERIF_DEBUG") != "" {
 		for _, c := range w.Calls {
